@@ -106,7 +106,7 @@ type respScript struct {
 	Status     int    `json:"status"`
 	Connection string `json:"connection"` // hsAbsent: header not sent
 	Upgrade    string `json:"upgrade"`    // hsAbsent: header not sent
-	Accept     string `json:"accept"`     // "correct" | "other-key" | "absent"
+	Accept     string `json:"accept"`     // "correct" | "other-key" | "absent" | near misses of the correct value
 	Proto      string `json:"resp_protocol"`
 	Ext        string `json:"resp_extensions"`
 }
@@ -130,6 +130,14 @@ func (s respScript) header(key string) http.Header {
 		h["Sec-Websocket-Accept"] = []string{hsclient.AcceptFor(key)}
 	case "other-key":
 		h["Sec-Websocket-Accept"] = []string{hsclient.AcceptFor(otherKey)}
+	case "case-flipped":
+		// base64 is case sensitive: another digest
+		h["Sec-Websocket-Accept"] = []string{swapCase(hsclient.AcceptFor(key))}
+	case "cut-short":
+		a := hsclient.AcceptFor(key)
+		h["Sec-Websocket-Accept"] = []string{a[:len(a)-1]}
+	case "extended":
+		h["Sec-Websocket-Accept"] = []string{hsclient.AcceptFor(key) + "="}
 	}
 	if s.Proto != "" {
 		h["Sec-Websocket-Protocol"] = strings.Split(s.Proto, "\n") // "\n" separates header lines
@@ -138,6 +146,19 @@ func (s respScript) header(key string) http.Header {
 		h["Sec-Websocket-Extensions"] = []string{s.Ext}
 	}
 	return h
+}
+
+func swapCase(s string) string {
+	b := []byte(s)
+	for i, c := range b {
+		switch {
+		case c >= 'a' && c <= 'z':
+			b[i] = c - 32
+		case c >= 'A' && c <= 'Z':
+			b[i] = c + 32
+		}
+	}
+	return string(b)
 }
 
 // fakeRT is the RoundTripper: it records the request and answers from the script.
@@ -262,7 +283,7 @@ var (
 	c13Statuses  = []int{101, 200, 400}
 	c13ConnVals  = []string{"Upgrade", "upgrade", "keep-alive, Upgrade", "keep-alive", "", hsAbsent}
 	c13UpgVals   = []string{"websocket", "WebSocket", "websockets", "h2c, websocket", "", hsAbsent}
-	c13Accepts   = []string{"correct", "other-key", "absent"}
+	c13Accepts   = []string{"correct", "other-key", "absent", "case-flipped", "cut-short", "extended"}
 	c13RespProto = []string{"", "chat", "CHAT", "other", "cha", "chatx", "other, chat", "chat, other", "other\nchat", "chat\nother"} // none, requested, other letter case, unrequested, proper prefix / extension of a requested one
 	c13ReqLists  = [][]string{nil, {"chat"}, {"chat", "echo"}}
 )
